@@ -53,7 +53,13 @@ fuzz_target!(init: { cfg(); }, |data: &[u8]| {
             ACCEPTED.fetch_add(1, Ordering::Relaxed);
             let mut k = [0u8; 16];
             k.copy_from_slice(&blake3::hash(data).as_bytes()[..16]);
-            DISTINCT.get_or_init(|| Mutex::new(HashSet::new())).lock().unwrap().insert(k);
+            {
+                // bounded: the count saturates rather than letting the set grow with the campaign
+                let mut set = DISTINCT.get_or_init(|| Mutex::new(HashSet::new())).lock().unwrap();
+                if set.len() < 400_000 {
+                    set.insert(k);
+                }
+            }
             if c.law {
                 if let Err(m) = law_a {
                     panic!("VERIF-LAW-A codec={} {}", c.t.name, m);
